@@ -50,6 +50,33 @@ def main():
                             cp = [p >> 16, (p >> 8) & 255, p & 255]
                             got.append([cx, cp])
                 out[f"{t}_{side}_{role}"] = got
+    # ultra-razor pairs: within 1e-9 of a threshold (a constant truncated to ten digits moves a ratio by about 1e-10 .. 1e-9).
+    # Vectorised: 4 million random colours as the darker / lighter side, nearest partners by luminance.
+    nprng = np.random.default_rng(20261003)
+    xs = nprng.integers(0, 1 << 24, size=4_000_000, dtype=np.int64)
+    lx = lum[xs]
+    for t in (3.0, 4.5, 7.0):
+        for role in ("dark", "light"):
+            tgt = t * (lx + 0.05) - 0.05 if role == "dark" else (lx + 0.05) / t - 0.05
+            ok = (tgt >= 0) & (tgt <= 1)
+            pos = np.clip(np.searchsorted(slum, tgt), 1, len(slum) - 1)
+            for off in (-1, 0):
+                cand = order[pos + off]
+                lc = lum[cand]
+                r = (np.maximum(lc, lx) + 0.05) / (np.minimum(lc, lx) + 0.05)
+                for side in ("above", "below"):
+                    sel = ok & (np.abs(r - t) <= 1e-9) & ((r >= t) == (side == "above"))
+                    key = f"{t}_{side}_{role}"
+                    have = {(tuple(a), tuple(b)) for a, b in out[key]}
+                    add = []
+                    for j in np.nonzero(sel)[0][:400]:
+                        x, p = int(xs[j]), int(cand[j])
+                        pr = ((x >> 16, (x >> 8) & 255, x & 255), (p >> 16, (p >> 8) & 255, p & 255))
+                        if pr not in have and len(add) < 90:
+                            have.add(pr)
+                            add.append([list(pr[0]), list(pr[1])])
+                    out.setdefault("ultra_" + key, [])
+                    out["ultra_" + key] += add
     path = os.path.join(os.path.dirname(os.path.abspath(__file__)), "..", "harness", "razor_pairs.json")
     with open(path, "w") as f:
         json.dump(out, f, separators=(",", ":"))
